@@ -728,7 +728,11 @@ sqf::runtime::runtime::result sqf::runtime::runtime::execute(sqf::runtime::runti
         bool finished = true;
         if (m_state != state::running)
         { // no run is active: the maximum runtime applies to this evaluation, not to whenever the last run started
+#ifdef SQFVM_RUNTIME_VERIF
+            m_run_timestamp = sqf::verif::now();
+#else
             m_run_timestamp = std::chrono::system_clock::now();
+#endif // SQFVM_RUNTIME_VERIF
             m_is_exit_requested = false;
         }
         try
